@@ -38,6 +38,15 @@ fn shape_for(prop: &str, i: usize) -> Shape {
             s.p_barrier = [0, 10, 20, 10][v];
             s.n_res = 3 + v;
             s.max_ops = 7 + 3 * v;
+            if v == 3 {
+                // long conflict lanes with skewed running times: groups fill up to capacity, dependencies point into them
+                s.lanes = true;
+                s.rt_skew = true;
+                s.max_ops = 40;
+                s.n_res = 3;
+                s.p_dep = 45;
+                s.p_batch = 0;
+            }
         }
         "C03" => {
             s.p_barrier = [25, 35, 15, 30][v];
@@ -79,6 +88,7 @@ fn shape_for(prop: &str, i: usize) -> Shape {
             s.p_nest = [0, 0, 0, 12][v];
             if v == 2 {
                 s.p_batch = 25;
+                s.p_multi = 35;
             }
         }
         "C13" => {
